@@ -800,3 +800,126 @@ func genExt(r *rand.Rand, id string) *Case {
 }
 
 func init() { generators["ext"] = genExt }
+
+// genNames (C07): histories of Parse/Bind/Describe/Execute/Close over a small pool of names
+// (the empty name included). Every message is followed by Sync, so an error never hides later
+// messages. The generator keeps its own abstract name maps (NameSpec) and attaches what must
+// happen: xev = the statement executions (query text of the statement the portal was bound to,
+// with that Bind's parameters), xp = the reply notation.
+func genNames(r *rand.Rand, id string) *Case {
+	c := baseCase(id, "names")
+	type stmtDef struct {
+		query  string
+		ncols  int
+		nparam int
+	}
+	type portalDef struct {
+		st     stmtDef
+		params []bindParam
+		rf     []uint16
+	}
+	stmts := map[string]stmtDef{}
+	portals := map[string]portalDef{}
+	in := plainStartup("u")
+	var xp, xev []string
+	n := 3 + r.Intn(30)
+	for i := 0; i < n; i++ {
+		name := pick(r, namePool)
+		switch k := r.Intn(12); {
+		case k < 3:
+			ncols := r.Intn(3)
+			cols := make([]string, ncols)
+			vals := make([]string, ncols)
+			for j := range cols {
+				cols[j] = "t"
+				vals[j] = "t" + hxs("v"+strconv.Itoa(i))
+			}
+			nparam := r.Intn(3)
+			ps := make([]string, nparam)
+			for j := range ps {
+				ps[j] = "25"
+			}
+			tag := "S" + strconv.Itoa(i)
+			q := strings.Join(cols, ",") + "/" + strings.Join(ps, ",") + "/r:" + strings.Join(vals, ",") + ";c:" + hxs(tag) + "/ok"
+			in = append(in, msgParse(name, q, nil)...)
+			stmts[name] = stmtDef{query: q, ncols: ncols, nparam: nparam}
+			xp = append(xp, "1")
+		case k < 6:
+			sname := pick(r, namePool)
+			np := r.Intn(3)
+			params := make([]bindParam, np)
+			for j := range params {
+				params[j].v = []byte("b" + strconv.Itoa(i) + "p" + strconv.Itoa(j))
+			}
+			var rf []uint16
+			if r.Intn(2) == 0 {
+				rf = []uint16{uint16(r.Intn(2))}
+			}
+			in = append(in, msgBind(name, sname, nil, params, rf)...)
+			if st, ok := stmts[sname]; ok {
+				portals[name] = portalDef{st: st, params: params, rf: rf}
+				xp = append(xp, "2")
+			} else {
+				xp = append(xp, "E42P14:FATAL")
+			}
+		case k < 8:
+			in = append(in, msgExecute(name, 0)...)
+			if p, ok := portals[name]; ok {
+				ps := make([]string, len(p.params))
+				for j, bp := range p.params {
+					ps[j] = "0." + hex.EncodeToString(bp.v)
+				}
+				xev = append(xev, "X:"+hxs(p.st.query)+":0:"+strings.Join(ps, ","))
+				xp = append(xp, "D"+strconv.Itoa(p.st.ncols), xpC(p.st.query[strings.LastIndex(p.st.query, "c:")+2:strings.LastIndex(p.st.query, "/ok")]))
+				// the tag is stored hex-encoded in the script; xpC hex-encodes again, so decode first
+				xp[len(xp)-1] = "C" + p.st.query[strings.LastIndex(p.st.query, "c:")+2:strings.LastIndex(p.st.query, "/ok")]
+			} else {
+				xp = append(xp, "E34000:ERROR")
+			}
+		case k < 10:
+			if r.Intn(2) == 0 {
+				in = append(in, msgDescribe('S', name)...)
+				if st, ok := stmts[name]; ok {
+					xp = append(xp, "t"+strconv.Itoa(st.nparam))
+					if st.ncols == 0 {
+						xp = append(xp, "n")
+					} else {
+						xp = append(xp, "T"+strconv.Itoa(st.ncols))
+					}
+				} else {
+					xp = append(xp, "EXXUUU:ERROR")
+				}
+			} else {
+				in = append(in, msgDescribe('P', name)...)
+				if p, ok := portals[name]; ok {
+					if p.st.ncols == 0 {
+						xp = append(xp, "n")
+					} else {
+						xp = append(xp, "T"+strconv.Itoa(p.st.ncols))
+					}
+				} else {
+					xp = append(xp, "EXXUUU:ERROR")
+				}
+			}
+		default:
+			if r.Intn(2) == 0 {
+				in = append(in, msgClose('S', name)...)
+				delete(stmts, name)
+			} else {
+				in = append(in, msgClose('P', name)...)
+				delete(portals, name)
+			}
+			xp = append(xp, "3")
+		}
+		in = append(in, msgSync()...)
+		xp = append(xp, "Z")
+	}
+	c.In = in
+	c.Cuts = randCuts(r, len(in))
+	c.Extra["xp"] = strings.Join(xp, ",")
+	c.Extra["xev"] = "=" + strings.Join(xev, ";")
+	c.Extra["xend"] = "w"
+	return c
+}
+
+func init() { generators["names"] = genNames }
